@@ -48,7 +48,7 @@ try:
     note("demo_with_change_fails", rc1 != 0)
     meta["ran"].append("go test -run '%s' . (with change): rc=%d" % (runpat, rc1))
     # without the change
-    sh("git stash", cwd=wt)
+    sh("git diff > /root/scratch/seed/%s-%s.saved.diff && git checkout -- ." % (pid, n), cwd=wt)  # never git stash: it is shared by all worktrees
     for f in demo_tests:
         shutil.copy(f, wt)
     rc2, out2 = sh("go test -vet=off -count=1 -timeout 10m -run '%s' ." % runpat, cwd=wt, timeout=900)
@@ -58,7 +58,7 @@ try:
         note("demo_without_log", out2[-1500:])
     for f in demo_tests:
         os.remove(os.path.join(wt, os.path.basename(f)))
-    sh("git stash pop", cwd=wt)
+    sh("git apply /root/scratch/seed/%s-%s.saved.diff" % (pid, n), cwd=wt)
     # full suite with the change, in a private network namespace (the suite binds fixed ports)
     if not skip_suite:
         ok = False
